@@ -23,9 +23,13 @@ CHECKS = {
                 note="Alpha in {1,2,3}; addresses are a small IPv4 set",
                 ref="DESIGN.md 5/C04"),
     "C12": dict(level="model_checking", technique="exhaustive enumeration of put sequences and of get-traversal reply assignments/orders on the real bep44.Wrapper, Server and getput.Get (E1 style: real code in a testing/synctest bubble, fake socket, simulated nodes) against an independent reference (crypto/ed25519 + own signed-buffer construction)",
-                text="Store side: 162 puts from a generator (immutable values of 6 shapes incl. encodings of exactly 999/1000/1001 bytes; mutable puts over 2 keys x salts of 0/1/64/65 bytes x seq 0..2 x signature in {valid, made for another salt / seq / value / key, three single-bit flips, all-zero}) delivered over the wire with a fresh token and directly into bep44.Wrapper with a recording store, as singles and as all ordered pairs (quick: pairs of a 60-letter core; thorough: all pairs); after every step a get for every target and every value hash ever mentioned. Reference: accepted iff encoded value <= 1000 bytes and (immutable or (salt <= 64 bytes and the ed25519 signature verifies over the harness' own signed buffer)); a rejected put is answered with an applicable code of 205/206/207 and causes no Store.Put; an accepted item is served exactly under its target; every served value re-verifies (signature under that target's key and salt, or SHA-1 of the encoded value). Client side: getput.Get on a mutable and an immutable target against 1-2 (quick) / 1-3 (thorough) simulated nodes, each with one of 11 behaviours (genuine seq 1/2, forged value under a genuine signature, another key, matching key without seq, bad signature, another salt, immutable genuine / wrong hash, no token, nothing), all assignments x all reply orders and a time-out variant: the result is the verified value with the highest seq delivered, or 'value not found' iff none verifies.",
+                text="Store side: 162 puts from a generator (immutable values of 6 shapes incl. encodings of exactly 999/1000/1001 bytes; mutable puts over 2 keys x salts of 0/1/64/65 bytes x seq 0..2 x signature in {valid, made for another salt / seq / value / key, three single-bit flips, all-zero}) delivered over the wire with a fresh token and directly into bep44.Wrapper with a recording store, as singles and as all ordered pairs (quick: pairs of a 60-letter core; thorough: all pairs); after every step a get for every target and every value hash ever mentioned. Reference: accepted iff encoded value <= 1000 bytes and (immutable or (salt <= 64 bytes and the ed25519 signature verifies over the harness' own signed buffer)); a rejected put is answered with an applicable code of 205/206/207 and causes no Store.Put; an accepted item is served exactly under its target; every served value re-verifies (signature under that target's key and salt, or SHA-1 of the encoded value). Client side: getput.Get on a mutable and an immutable target against 1-2 (quick) / 1-3 (thorough) simulated nodes, each with one of 13 behaviours (genuine seq 1/2, forged value under a genuine signature, a genuine signature replayed over another value or seq, another key, matching key without seq, bad signature, another salt, immutable genuine / wrong hash, no token, nothing), all assignments x all reply orders and a time-out variant: the result is the verified value with the highest seq delivered, or 'value not found' iff none verifies.",
                 note="seq/cas ordering rules (301/302) are C13's and are treated as legal rejections here; crypto/ed25519 and SHA-1 are trusted",
                 ref="DESIGN.md 5/C12"),
+    "C19": dict(level="model_checking", technique=E1 + "; scripted path histories enumerated over blocklist shape x installation moment x passive x path x ordered pairs of inbound kinds",
+                text="Blocklist shape {single IPv4, IPv4 range, single IPv6, IPv4+IPv6 (harness' own iplist.Ranger)} x installation {at construction; by SetIPBlockList after the blocked peer is in the table / holds a valid token / has a query pending} x passive on/off x path: all ordered pairs of 9 inbound datagram kinds from the blocked peer (every query method incl. validly-tokened announce_peer and put, unknown method, unsolicited response, error); response / error to the query that was pending when the list was installed; Ping/FindNode/GetPeers/Get/Put to the blocked peer; Bootstrap, Announce, getput.Get, getput.Put over a network whose seeds and replies list the blocked peer; an announce in which the blocked peer answered get_peers with a token before it was blocked; a 20-minute TableMaintainer run with the blocked peer in the table; ordinary service of every method from an unblocked peer. Oracle: no datagram is ever written to a destination that was blocklisted at that moment (whole write log); an inbound datagram from a blocked address causes no write and leaves routing table (incl. timestamps), BEP 44 store, peer store, hooks and pending transactions unchanged; a pending query is not completed by a blocked reply and the sender does not enter the table; lookups attempt no query to a blocked address (attempted == reached the wire); passive => no r/e is ever written and every written q carries ro=1; not passive => no written q carries ro.",
+                note="a reply racing the installation of the list inside one quiescence step is not enumerated (E1 granularity)",
+                ref="DESIGN.md 5/C19"),
     "C13": dict(level="model_checking", technique="exhaustive enumeration of operation sequences of the real bep44.Wrapper and Server against a sequential reference model (E1 style, fake clock), plus " + E2.replace("traversal code", "bep44 code") + " with a brute-force linearizability check",
                 text="Sequential: every sequence (depth 3 quick / 4 thorough directly on bep44.Wrapper with a 51-letter alphabet; depth 2 / 3 over the wire on the real Server with a fresh token per put) of put(seq in {-1,0,1,2,3,MaxInt64}, cas in {0,1,2,9}, value a|b), get (over the wire also naming seq 0/1/2/MaxInt64) and clock steps to 1 ns before / past the expiry, compared after every step with a reference model: 302 for a lower seq or the same seq with another value, 301 unless cas equals the stored seq, an accepted put is what gets return, nothing is served after the expiry, v is sent to a get naming a seq only if the stored seq is newer, and the stored seq never decreases at any Store.Put. Concurrent: 8 scenarios of 2-3 concurrent Wrapper.Put/Get calls (two/three puts, same seq, cas race, empty slot, put vs get, expired item vs put) under the controlled scheduler with points at Store.Get/Put/Del and the wrapper mutex; all interleavings (unbounded), each checked for monotone stored seq and for linearizability against the same model by brute force over the call orders consistent with real time, including the final state later gets see.",
                 note="in the corner the statement leaves open (same seq, same value, mismatching cas) both accept and 301 are legal; an expired item that was not yet deleted may or may not still block a lower-seq put",
